@@ -521,3 +521,74 @@ func VerifC03HWWriters() {
 	}
 	vCover("done")
 }
+
+// VerifC03ReaderStartsDuringAdvance: a committed reader is created (at a
+// symbolic start at or below the current high watermark) while the high
+// watermark advances from h0 to h1, under the exploring scheduler: whatever
+// the reader saw of the two values while it was being set up, it delivers
+// exactly start..h1, once, in order, nothing above the high watermark of the
+// moment, and does not park while committed messages at or after its position
+// are outstanding (the read has a virtual one-hour deadline: parking for good
+// shows as an error).
+func VerifC03ReaderStartsDuringAdvance() {
+	dir := vTempDir()
+	n := vParam("msgs", 3)
+	seg := int64(1 << 20)
+	if vChoose(2) == 1 {
+		seg = 100 // two messages per segment: the two values lie in different segments
+		vCover("several-segments")
+	}
+	l, err := New(vOpts(dir, seg))
+	vAssert(err == nil, "New succeeds")
+	for i := 0; i < n; i++ {
+		_, err := l.Append([]*Message{{Value: []byte{byte(i)}, Timestamp: int64(1 + i), MagicByte: 2}})
+		vAssert(err == nil, "Append succeeds")
+	}
+	h0 := vNondetInt64("hw-before")
+	h1 := vNondetInt64("hw-after")
+	start := vNondetInt64("start")
+	vAssume(h0 >= 0)
+	vAssume(h1 > h0)
+	vAssume(h1 < int64(n))
+	vAssume(start >= 0)
+	vAssume(start <= h0)
+	h0, h1, start = vConcretize64(h0), vConcretize64(h1), vConcretize64(start)
+	l.SetHighWatermark(h0)
+	done := make(chan struct{}, 1)
+	delivered := make(chan int64, 16)
+	vSchedExplore(vParam("preemptions", 1))
+	go func() {
+		l.SetHighWatermark(h1)
+		done <- struct{}{}
+	}()
+	go func() {
+		r, err := l.NewReader(start, false)
+		if err != nil {
+			delivered <- -200
+			return
+		}
+		buf := make([]byte, 28)
+		ctx, cancel := context.WithTimeout(context.Background(), time.Hour)
+		defer cancel()
+		for {
+			_, off, _, _, err := r.ReadMessage(ctx, buf)
+			if err != nil {
+				delivered <- -100
+				return
+			}
+			vAssert(off <= l.HighWatermark(), "no message above the high watermark is delivered")
+			delivered <- off
+		}
+	}()
+	<-done
+	vSchedExplore(0)
+	for i := start; i <= h1; i++ {
+		off := <-delivered
+		vAssert(off != -200, "a committed reader can be created at or below the high watermark")
+		vAssert(off == i, "a reader created while the high watermark advances delivers every committed message from its start on, once, in order")
+		if off != i {
+			return
+		}
+	}
+	vCover("done")
+}
